@@ -4,9 +4,10 @@
    parse_expr = parser.ParseExpr on a token list, fuel-indexed; prec = Token.Precedence,
    regenerated from token/token.go on every run (Gen/Tokens.v).
 
+   parse ts = parse_expr (14 * |ts| + 14) ts, which never runs out of fuel (C22_parser_terminates).
+
    FULL STATEMENT (what C22 asks):
-     forall e, validb e = true -> noparb e = true ->
-       exists fuel e', parse_expr fuel (pr e) = ROk (PE e') [] /\ strip e' = e.
+     forall e, validb e = true -> noparb e = true -> exists e', parse (pr e) = ROk (PE e') [] /\ strip e' = e.
    The faithful model REFUTES it (C22_print_parse_roundtrip_refuted and the witnesses below: the
    printer omits parentheses around ErrWrapExpr.X, ErrWrapExpr.Default, StarExpr.X and around a lambda
    or an "x ?: d" operand).  What is proved is the statement restricted by the decidable predicate
@@ -14,26 +15,29 @@
    is read back at that position by the parser; posokb fails exactly on the shapes above. *)
 From Coq Require Import List ZArith Bool.
 Import ListNotations.
-From V Require Import Base.Prelude Gen.Tokens Model.Expr Proofs.ExprFuel Proofs.Expr.
+From V Require Import Base.Prelude Gen.Tokens Gen.PrinterExpr Model.Expr Proofs.ExprFuel Proofs.Expr Proofs.ExprImage Proofs.ExprGen Proofs.ExprTotal.
 Open Scope Z_scope.
+
+(* the parser model terminates on every token list: fuel 14 * |ts| + 14 is never exhausted *)
+Theorem C22_parser_terminates : forall ts, parse ts <> RFuel.
+Proof. exact parse_total. Qed.
 
 (* the round trip: the parser gives back the tree with exactly the printer's parentheses (norm e);
    dropping parentheses gives the original tree *)
 Theorem C22_print_parse_roundtrip_partial : forall e,
-  validb e = true -> nolamb e = true -> noparb e = true -> posokb e = true ->
-  exists fuel e', parse_expr fuel (pr e) = ROk (PE e') [] /\ strip e' = e.
+  validb e = true -> noparb e = true -> posokb e = true ->
+  exists e', parse (pr e) = ROk (PE e') [] /\ strip e' = e.
 Proof.
-  intros e V L N K. destruct (roundtrip e V L K) as [f Hf]. exists f, (norm e). split; auto.
-  now apply strip_norm_nopar.
+  intros e V N K. exists (norm e). split; [now apply roundtrip_closed|now apply strip_norm_nopar].
 Qed.
 
 (* the same for trees that contain ParenExpr nodes (used by C19/C20): the result is norm e, it has the
    structure of e, and printing it again gives the same tokens *)
 Theorem C22_roundtrip_norm : forall e,
-  validb e = true -> nolamb e = true -> posokb e = true ->
-  (exists fuel, parse_expr fuel (pr e) = ROk (PE (norm e)) []) /\ strip (norm e) = strip e /\ pr (norm e) = pr e.
+  validb e = true -> posokb e = true ->
+  parse (pr e) = ROk (PE (norm e)) [] /\ strip (norm e) = strip e /\ pr (norm e) = pr e.
 Proof.
-  intros e V L K. split; [now apply roundtrip|]. split; [apply (strip_norm (sz e)); auto|apply (pr_norm (sz e)); auto].
+  intros e V K. split; [now apply roundtrip_closed|]. split; [apply (strip_norm (sz e)); auto|apply (pr_norm (sz e)); auto].
 Qed.
 
 (* more fuel never changes an answer: the parse result is a function of the tokens *)
@@ -52,63 +56,60 @@ Theorem C22_levels_inhabited :
   forallb (fun p => existsb (fun z => is_binop z && Z.eqb (prec z) p) (zrange 0 128)) [1;2;3;4;5] = true.
 Proof. exact levels_inhabited. Qed.
 
+(* K-gen obligations over the regenerated printer tables (translator `printerexpr`): the precedence constants are the
+   ones the model uses; mayCombine inserts a blank between every operator and prefix operator that would otherwise be
+   scanned as a longer token or a comment.  (The source text of the operand contexts of expr1 - Proofs/ExprGen.v,
+   operands_as_modelled - is compared by checks/c22.py and reported as static_gen information: a textual change of
+   expr1 is decided by the differential run, not by its spelling.) *)
+Theorem C22_precedence_constants : px_LowestPrec = LowestPrec /\ px_UnaryPrec = UnaryPrec /\ px_HighestPrec = HighestPrec.
+Proof. exact prec_constants. Qed.
+Theorem C22_mayCombine_covers_prefix_operators :
+  forallb (fun t1 => forallb (fun t2 => implb (glues t1 (first_byte t2)) (may_combine t1 (first_byte t2))) prefix_ops) before_ops = true.
+Proof. exact mayCombine_covers. Qed.
+
 (* ---- refutations of the full statement on the faithful model ---- *)
 Definition a := EId [97%N]. Definition b := EId [98%N]. Definition c := EId [99%N].
 
 (* ErrWrapExpr{X: a+b}  prints  a + b !   which reads  a + (b!) *)
 Theorem C22_errwrap_refuted : let e := EEw xgo_NOT (EBin xgo_ADD a b) in
-  validb e = true /\ noparb e = true /\ forall f e', parse_expr f (pr e) = ROk (PE e') [] -> strip e' <> e.
-Proof.
-  intros e. repeat split; try reflexivity.
-  apply (refute_by_witness 40 (pr e) e (ROk (PE (EBin xgo_ADD a (EEw xgo_NOT b))) [])); [vm_compute; reflexivity|discriminate|].
-  intros e' H. injection H as <-. vm_compute. discriminate.
-Qed.
+  validb e = true /\ noparb e = true /\ exists e', parse (pr e) = ROk (PE e') [] /\ strip e' <> e.
+Proof. intros e. repeat split; try reflexivity. eexists. split; [vm_compute; reflexivity|vm_compute; discriminate]. Qed.
 
 (* StarExpr{X: a+b}  prints  [*] a + b   which reads as the sum of [*]a and b *)
 Theorem C22_star_refuted : let e := EStar (EBin xgo_ADD a b) in
-  validb e = true /\ noparb e = true /\ forall f e', parse_expr f (pr e) = ROk (PE e') [] -> strip e' <> e.
-Proof.
-  intros e. repeat split; try reflexivity.
-  apply (refute_by_witness 40 (pr e) e (ROk (PE (EBin xgo_ADD (EStar a) b)) [])); [vm_compute; reflexivity|discriminate|].
-  intros e' H. injection H as <-. vm_compute. discriminate.
-Qed.
+  validb e = true /\ noparb e = true /\ exists e', parse (pr e) = ROk (PE e') [] /\ strip e' <> e.
+Proof. intros e. repeat split; try reflexivity. eexists. split; [vm_compute; reflexivity|vm_compute; discriminate]. Qed.
 
 (* ErrWrapExpr{X: a, Default: b+c}  prints  a ? : b + c   which reads  (a ?: b) + c *)
 Theorem C22_errwrap_default_refuted : let e := EEwd xgo_QUESTION a (EBin xgo_ADD b c) in
-  validb e = true /\ noparb e = true /\ forall f e', parse_expr f (pr e) = ROk (PE e') [] -> strip e' <> e.
-Proof.
-  intros e. repeat split; try reflexivity.
-  apply (refute_by_witness 40 (pr e) e (ROk (PE (EBin xgo_ADD (EEwd xgo_QUESTION a b) c)) [])); [vm_compute; reflexivity|discriminate|].
-  intros e' H. injection H as <-. vm_compute. discriminate.
-Qed.
+  validb e = true /\ noparb e = true /\ exists e', parse (pr e) = ROk (PE e') [] /\ strip e' <> e.
+Proof. intros e. repeat split; try reflexivity. eexists. split; [vm_compute; reflexivity|vm_compute; discriminate]. Qed.
 
 (* SelectorExpr{X: a ?: b}  prints  a ? : b . f   which reads  a ?: (b.f) *)
 Theorem C22_default_operand_refuted : let e := ESel (EEwd xgo_QUESTION a b) [102%N] in
-  validb e = true /\ noparb e = true /\ forall f e', parse_expr f (pr e) = ROk (PE e') [] -> strip e' <> e.
-Proof.
-  intros e. repeat split; try reflexivity.
-  apply (refute_by_witness 40 (pr e) e (ROk (PE (EEwd xgo_QUESTION a (ESel b [102%N]))) [])); [vm_compute; reflexivity|discriminate|].
-  intros e' H. injection H as <-. vm_compute. discriminate.
-Qed.
+  validb e = true /\ noparb e = true /\ exists e', parse (pr e) = ROk (PE e') [] /\ strip e' <> e.
+Proof. intros e. repeat split; try reflexivity. eexists. split; [vm_compute; reflexivity|vm_compute; discriminate]. Qed.
 
 (* BinaryExpr{X: x => x, +, c}  prints  x => x + c   which reads  x => (x + c);
-   BinaryExpr{X: c, +, Y: x => x}  prints  c + x => x   which is a syntax error *)
+   BinaryExpr{X: c, +, Y: x => x}  prints  c + x => x   which is a syntax error;
+   LambdaExpr{x => (a)(b)} (a call as body)  prints  x => (a)(b)  whose "(a)" is read as a parenthesised result list *)
 Theorem C22_lambda_operand_refuted :
   let x := [120%N] in let e1 := EBin xgo_ADD (ELam [x] false [EId x] false) c in let e2 := EBin xgo_ADD c (ELam [x] false [EId x] false) in
-  validb e1 = true /\ noparb e1 = true /\ (forall f e', parse_expr f (pr e1) = ROk (PE e') [] -> strip e' <> e1) /\
-  validb e2 = true /\ noparb e2 = true /\ (forall f e', parse_expr f (pr e2) = ROk (PE e') [] -> strip e' <> e2).
+  let e3 := ELam [x] false [ECall (EUn xgo_SUB a) [b] false] false in
+  validb e1 = true /\ noparb e1 = true /\ (exists e', parse (pr e1) = ROk (PE e') [] /\ strip e' <> e1) /\
+  validb e2 = true /\ noparb e2 = true /\ parse (pr e2) = RErr /\
+  validb e3 = true /\ noparb e3 = true /\ parse (pr e3) = RErr.
 Proof.
-  intros x e1 e2. repeat split; try reflexivity.
-  - apply (refute_by_witness 40 (pr e1) e1 (ROk (PE (ELam [x] false [EBin xgo_ADD (EId x) c] false)) [])); [vm_compute; reflexivity|discriminate|].
-    intros e' H. injection H as <-. vm_compute. discriminate.
-  - apply (refute_by_witness 40 (pr e2) e2 RErr); [vm_compute; reflexivity|discriminate|]. intros e' H. discriminate.
+  intros x e1 e2 e3. repeat split; try reflexivity; try (vm_compute; reflexivity).
+  eexists. split; [vm_compute; reflexivity|vm_compute; discriminate].
 Qed.
 
 (* hence the full statement is false on the model *)
 Theorem C22_print_parse_roundtrip_refuted :
-  ~ (forall e, validb e = true -> noparb e = true -> exists fuel e', parse_expr fuel (pr e) = ROk (PE e') [] /\ strip e' = e).
+  ~ (forall e, validb e = true -> noparb e = true -> exists e', parse (pr e) = ROk (PE e') [] /\ strip e' = e).
 Proof.
-  intros H. destruct C22_star_refuted as (V & N & R). destruct (H _ V N) as (f & e' & Hp & Hs). exact (R f e' Hp Hs).
+  intros H. destruct C22_star_refuted as (V & N & e1 & P1 & D1). destruct (H _ V N) as (e2 & P2 & D2).
+  rewrite P1 in P2. injection P2 as <-. exact (D1 D2).
 Qed.
 
 (* ---- non-vacuity: the hypotheses hold of a tree that uses every proved kind and needs parentheses in
@@ -117,9 +118,10 @@ Definition big : expr :=
   EBin xgo_MUL
     (EBin xgo_ADD a (EUn xgo_SUB (EUn xgo_SUB b)))
     (EBin xgo_SUB
-       (ECall (ESel (EUn xgo_SUB a) [102%N]) [EBin xgo_LOR a b; EIdx (EStar a) (ELit xgo_INT [49%N]); EEwd xgo_QUESTION (ECall a [] false) (EUn xgo_NOT c)] true)
+       (ECall (ESel (EUn xgo_SUB a) [102%N]) [EBin xgo_LOR a b; EIdx (EStar a) (ELit xgo_INT [49%N]); EEwd xgo_QUESTION (ECall a [] false) (EUn xgo_NOT c);
+                                              ELam [[120%N]; [121%N]] true [EBin xgo_ADD a b; ELam [[120%N]] false [EUn xgo_SUB c] false] true] true)
        (EBin xgo_SUB (EEw xgo_NOT (ECall b [c] false)) (EBin xgo_SRARROW a b))).
-Example C22_example_hypotheses : validb big = true /\ nolamb big = true /\ noparb big = true /\ posokb big = true.
+Example C22_example_hypotheses : validb big = true /\ noparb big = true /\ posokb big = true.
 Proof. vm_compute. auto. Qed.
 Example C22_example_roundtrip : parse (pr big) = ROk (PE (norm big)) [] /\ strip (norm big) = big /\ norm big <> big.
 Proof. vm_compute. repeat split; try reflexivity. discriminate. Qed.
@@ -130,12 +132,15 @@ Example C22_example_posok_fails :
   posokb (EEw xgo_NOT (ECall a [] false)) = true /\ posokb (EStar (EUn xgo_SUB a)) = true.
 Proof. vm_compute. auto 10. Qed.
 
+Print Assumptions C22_parser_terminates.
 Print Assumptions C22_print_parse_roundtrip_partial.
 Print Assumptions C22_roundtrip_norm.
 Print Assumptions C22_parse_fuel_irrelevant.
 Print Assumptions C22_precedence_table.
 Print Assumptions C22_delimiters_lowest.
 Print Assumptions C22_levels_inhabited.
+Print Assumptions C22_precedence_constants.
+Print Assumptions C22_mayCombine_covers_prefix_operators.
 Print Assumptions C22_errwrap_refuted.
 Print Assumptions C22_star_refuted.
 Print Assumptions C22_errwrap_default_refuted.
